@@ -74,6 +74,10 @@ TABLE = {
             'Every central value, chain, configuration number, fluctuation, replica mean and covariance gradient of every re-imported observable equals the original for all values (lists of observables on different '
             'configuration subsets / replicas / ensembles, covariance inputs), through the string API and in-memory files with gz on/off and all separator_insertion modes; the zero patterns of the written numbers are explored as paths.',
             'printf/strtod replaced by the contract "identity on doubles" (cov/grad are printed with 15 digits only); known finding: samples that are written as exactly zero are lost on import.'),
+    'C19': (True, 'symbolic execution of _format_uncertainty / __format__ / _extract_val_and_dval with a decimal-rounding contract for float formatting (token digits bound to z3 integers) and a case split for floor(log10); SMT (linear integer/real arithmetic)',
+            'For every real value and every positive error in the exponent range, significance 1..6 and flags "", "+", " ": value and error are recovered from the printed string within half a unit of the last printed digit, the error has '
+            'the requested number of significant digits, flags only prepend their character, CObs prints both parts, prior strings give exactly the parsed value and error, and comparisons / n-sigma test / plottable use value and dvalue.',
+            'Claim over the reals: libm log10 at powers of ten and binary rounding inside printf are outside; bare flags without significance are not covered by the statement.'),
 }
 
 NOT_YET = 'check not built yet in this session (work in progress; see DESIGN.md section 4 for the plan)'
